@@ -24,6 +24,18 @@ evaluated from the operation history and the wire:
     key is the authenticated sender of that datagram;
 (3) every ``MissingResponsePayload`` / ``DisclosePayload`` leaving the real code of a node towards P contains only
     tokens at chain positions below the index the node's user opened to P.
+
+Findings on the pinned tree (both reproduce with the library's own MockIPv8 test bench):
+
+* ``attested_twice``: the "already attested" test of ``should_sign`` never fires - it iterates over the *bytes* of
+  ``IdentityDatabase.get_authority()`` and compares ints with the key - so every re-disclosure within 300 s (replay,
+  duplicate, the next request of the same subject, an empty MissingResponse) is attested again:
+  reg(A,S1,h); req(S1->A,h); replay.  (Dropping that test is therefore an equivalent mutant of the pinned tree.)
+* ``attested_twice_after_foreign_attestation_disclosed`` (visible once the first one is repaired): ``Attestations`` has
+  PRIMARY KEY (public_key, metadata_pointer) and rows are written with INSERT OR IGNORE, so when the subject discloses
+  its credential together with a valid attestation of another authority, the authority's own row is silently dropped
+  and the next disclosure is attested again: reg(T,S1,h); req(S1->T,h); reg(A,S1,h); disclose(S1->A,h,+T's
+  attestation); poke.
 """
 from __future__ import annotations
 
@@ -339,7 +351,21 @@ def _merge(r, a: list, b: list) -> list:  # noqa: ANN001
     return out
 
 
+def _sweep_stale_scratch() -> None:
+    """Per-case directories are removed by the case itself; a killed worker may leave one behind."""
+    from simkit.boot import REAL_TIME
+    base = _scratch_base() or tempfile.gettempdir()
+    try:
+        for name in os.listdir(base):
+            path = os.path.join(base, name)
+            if name.startswith("c17_") and os.path.isdir(path) and REAL_TIME() - os.stat(path).st_mtime > 900:
+                shutil.rmtree(path, ignore_errors=True)
+    except OSError:
+        pass
+
+
 def cases(tier: str, base_seed: int):  # noqa: ANN201
+    _sweep_stale_scratch()
     n = 0
     # one fault-free instance of every situation: non-vacuity is demanded here
     for name, ops, expect in FIXED:
@@ -358,7 +384,8 @@ def cases(tier: str, base_seed: int):  # noqa: ANN201
     for i in itertools.count():
         seed = base_seed + 1000 + i
         r = random.Random(f"c17/{seed}")
-        parts = [r.choices(MOTIFS, WEIGHTS)[0][1](r) for _ in range(r.choice((1, 2, 2, 3, 3, 4, 5)))]
+        parts = [r.choices(MOTIFS, WEIGHTS)[0][1](r)
+                 for _ in range(r.choice((1, 2, 2, 3, 3, 4, 5) if tier == "quick" else (2, 3, 4, 5, 6, 8)))]
         ops: list = []
         for p in parts:
             ops = _merge(r, ops, p) if (ops and r.random() < 0.35) else ops + p
